@@ -95,6 +95,10 @@ def run(tier):
     tcases = [{'ebnf': to_ebnf(it['g']), 'g': it['g'], 'cfg': make_cfg(chars_of(it['g'], it['texts']), **(it.get('cfg') or {})),
                'texts': [''.join(t) for t in it['texts'] if len(t) <= 4][:30], 'settings': it.get('settings')} for it in items[ck.seed % step::step]]
     trace_validate(ck, tcases, label='C03 left recursion')
+    # TLC on the implementation-shaped machine: seeds, growth rounds and guards under every memo schedule (Refines outside KF-C03-1)
+    from ..pegcheck import machine_check
+    mstep = 6 if tier == 'quick' else 1
+    machine_check(ck, items[ck.seed % mstep::mstep], 'C03 left recursion', maxlen=3 if tier == 'quick' else 4, maxtexts=40 if tier == 'quick' else 150)
     ck.cov['rule'] = (f'{len(items)} grammars = 12 families (direct, aliased, aliased entered through the alias, mutual, '
                       'optional-prefixed, named, direct plus mutual, right-recursive mix, two precedence levels, unary prefix, right-recursive power) x all 24 '
                       'assignments of rule names from {a,e,t,x} x all strings over the operator/operand alphabet up to length '
